@@ -26,8 +26,8 @@ func Specs() map[string]*PropSpec {
 		Explanation: "Reply framing decided on all paths: exactly one conn.Write per extracted command on every path of both connection loops, never from a goroutine, executors never write their conn (R8); line-framed reply constructors receive constant/numeric text or sanitise CR/LF centrally, payloads use bulk strings, encoder headers are len() of what is emitted (R13); encoders return fresh memory (R13p); every executor path returns a non-nil reply (R7). The content of replies is not decided.",
 		Rules:       []RuleRef{rR8, rR13, rR13p, rR7, rR12c}})
 	add(&PropSpec{ID: "C04", Files: []string{"server/", "resp/", "memdb/", "util/"},
-		Explanation: "Catalogue of crash/wedge sources on request-reachable first-party code, each instance an obligation: index/slice bounds (R1: compiler prove pass or the SSA difference prover), nil dereference after an inconsistent test (R2), unchecked type assertions (R3), client-sized allocations (R4), explicit process exits (R5), lock pairing on all exits (R14p), blocking executors kept out of the apply loop (R18), protocol errors contained (R12c). Termination of value-dependent loops and timing are not decided.",
-		Rules:       []RuleRef{rR1, rR2, rR3, rR4, rR5, rR14pair, rR18, rR12c}})
+		Explanation: "Catalogue of crash/wedge sources on request-reachable first-party code, each instance an obligation: index/slice bounds (R1: compiler prove pass or the SSA difference prover), nil dereference after an inconsistent test (R2), unchecked type assertions (R3), client-sized allocations (R4), explicit process exits (R5), lock pairing on all exits (R14p), no stripe acquired twice by one goroutine and sorted de-duplicated multi-key acquisition (R14o, R15m: a self-deadlock wedges the stripe for every later client), blocking executors kept out of the apply loop (R18), protocol errors contained (R12c). Termination of value-dependent loops and timing are not decided.",
+		Rules:       []RuleRef{rR1, rR2, rR3, rR4, rR5, rR14pair, rR14order, rR15m, rR18, rR12c}})
 	add(&PropSpec{ID: "C05", Files: []string{"memdb/", "util/"},
 		Explanation: "The locking protocol that single-key linearizability rests on, decided for every path: the key's stripe is held (write mode for writes and mutators) at every keyspace and container access (R15); a value written from a read lies in the same hold (R15r); every acquire is released on all exits (R14p); the atomic key counter is never accessed plainly and never sizes a result (R6); subscriber tables and the lazy-expiry decision are guarded (R17). Linearizability of recorded histories is not decided.",
 		Rules:       []RuleRef{rR15, rR15r, rR14pair, rR6, rR17}})
